@@ -202,10 +202,12 @@ Definition set_dry (w : world) (cr rm : list rpath) : world :=
      w_created := cr; w_removed := rm; w_report := w_report w;
      w_answers := w_answers w; w_prompts := w_prompts w |}.
 
-Definition dry_renamer (v : variant) (w : world) (cwd : rpath) (src dst : ppath) (override : bool)
-  : world * option exn :=
-  if negb (dry_exists v w cwd src) then (w, Some ExOther)          (* FileNotFoundError *)
-  else if dry_exists v w cwd dst && negb override then (w, Some ExDestExists)
+(* checks in the order of the real renamers: destination, (same directory), source *)
+Definition dry_renamer (v : variant) (same_dir_only : bool) (w : world) (cwd : rpath) (src dst : ppath)
+           (override : bool) : world * option exn :=
+  if dry_exists v w cwd dst && negb override then (w, Some ExDestExists)
+  else if same_dir_only && negb (ppath_eqb (pp_parent src) (pp_parent dst)) then (w, Some ExInvalidDest)
+  else if negb (dry_exists v w cwd src) then (w, Some ExOther)     (* FileNotFoundError *)
   else
     let ks := dry_key v cwd src in let kd := dry_key v cwd dst in
     let rm1 := add_path ks (w_removed w) in
@@ -221,7 +223,7 @@ Definition add_report (w : world) (src dst : ppath) (override : bool) : world :=
 (* PrintingRenamerWrapper around the renamer chosen by build_pipeline *)
 Definition renamer_core (c : cfg) (w : world) (cwd : rpath) (src dst : ppath) (override : bool)
   : world * option exn :=
-  if c_dry c then dry_renamer (c_var c) w cwd src dst override
+  if c_dry c then dry_renamer (c_var c) (match c_mode c with MPath => false | _ => true end) w cwd src dst override
   else match c_mode c with
        | MPath => file_mover (c_var c) (c_fault c) w cwd src dst override
        | _ => file_renamer (c_var c) (c_fault c) w cwd src dst override
@@ -357,6 +359,31 @@ Definition contained (v : variant) (s : fs) (f : pfile) (np : ppath) : option bo
                     else str_prefix_path (pf_dir f) a)
   end.
 
+(* every directory that does not exist yet on the way to the destination must resolve inside the
+   input directory: (destination_parent, *destination_parent.parents), lexical parents, stopping at
+   the first one that exists *)
+Fixpoint new_dirs_inside (n : nat) (s : fs) (d : rpath) (comps : list name) : option bool :=
+  let p := {| up_abs := true; up_comps := comps |} in
+  if exists_ s [] p then Some true
+  else match realpath s [] p with
+       | None => None
+       | Some a =>
+         if is_prefix_path d a then
+           match n with
+           | O => Some true
+           | S k => match comps with
+                    | [] => Some true
+                    | _ => new_dirs_inside k s d (removelast comps)
+                    end
+           end
+         else Some false
+       end.
+
+Definition parents_contained (s : fs) (f : pfile) (np : ppath) : option bool :=
+  let target := if Nat.eqb (pp_root np) 0 then pf_dir f ++ pp_parts np else pp_parts np in
+  let parent := removelast target in
+  new_dirs_inside (length parent) s (pf_dir f) parent.
+
 Definition backlog_entry := (rpath * ppath * ppath)%type.   (* input directory, source, destination *)
 
 Fixpoint first_pass (c : cfg) (plan : list (pfile * rendered)) (w : world) (cwd : rpath)
@@ -375,11 +402,16 @@ Fixpoint first_pass (c : cfg) (plan : list (pfile * rendered)) (w : world) (cwd 
              | None => (w, cwd1, backlog, Some ExOther)
              | Some false => (w, cwd1, backlog, Some ExInvalidDest)
              | Some true =>
+               match parents_contained (w_fs w) f np with
+               | None => (w, cwd1, backlog, Some ExOther)
+               | Some false => (w, cwd1, backlog, Some ExInvalidDest)
+               | Some true =>
                match renamer c w cwd1 (pf_rel f) np false with
                | (w1, None) => first_pass c rest w1 cwd1 backlog
                | (w1, Some e) =>
                  if is_file_exists e then first_pass c rest w1 cwd1 ((pf_dir f, pf_rel f, np) :: backlog)
                  else (w1, cwd1, backlog, Some e)
+               end
                end
              end
       end
@@ -409,6 +441,7 @@ Fixpoint second_pass (c : cfg) (backlog : list backlog_entry) (w : world) (cwd :
   end.
 
 Record result := {
+  r_error : option exn;          (* the exception that ended the run, if any *)
   r_status : Z;
   r_final : fs;
   r_states : list fs;           (* oldest first *)
@@ -425,7 +458,8 @@ Definition run (c : cfg) (plan : list (pfile * rendered)) (start_cwd : rpath) (s
     | Some e => (w1, Some e)
     | None => let '(w2, _, e2) := second_pass c backlog w1 cwd1 in (w2, e2)
     end in
-  {| r_status := match e2 with None => 0%Z | Some e => status_of e end;
+  {| r_error := e2;
+     r_status := match e2 with None => 0%Z | Some e => status_of e end;
      r_final := w_fs w2;
      r_states := rev (w_hist w2);
      r_calls := rev (w_calls w2);
